@@ -87,9 +87,10 @@ def unwrap_args(repo: Repo, chk: Check) -> None:
     fixed = tsz - Lin.atom(("len", "self.auth_value"))
     buf = f.params[1]
     end = Lin.atom(("end", buf))
-    frag = Lin.atom(("field", "pdu_header.frag_len"))
-    auth = Lin.atom(("field", "pdu_header.auth_len"))
-    o0 = Lin.atom(("field", "encrypt_offsets[0]"))
+    hdr_name = f.params[2] if len(f.params) > 2 else "pdu_header"
+    frag = Lin.atom(("field", f"{hdr_name}.frag_len"))
+    auth = Lin.atom(("field", f"{hdr_name}.auth_len"))
+    o0 = Lin.atom(("field", f"{f.params[4] if len(f.params) > 4 else 'encrypt_offsets'}[0]"))
     sto = frag - (auth + fixed)
     want = [("header", Lin(0), o0), ("body", o0, sto), ("security trailer", sto, sto + fixed), ("signature", sto + fixed, end)]
     n = 0
@@ -235,7 +236,10 @@ def sealed_requests(repo: Repo, chk: Check) -> None:
         site = Site.of(f, ps.exit_node)
         ok = isinstance(v, ast.Tuple) and len(v.elts) == 2
         eo = v.elts[1] if ok else None
-        okeo = isinstance(eo, ast.Tuple) and len(eo.elts) == 2
+        from sa.pathsum import _carrier_fields
+
+        cf = _carrier_fields(eo, f.mod) if eo is not None else None
+        okeo = (isinstance(eo, ast.Tuple) and len(eo.elts) == 2) or (cf is not None and len([k for k in cf if not k.startswith("__")]) == 2)
         chk.ob("O3", site, bool(okeo), "authenticated requests always carry encrypt offsets (start, end)" if okeo else f"on an authenticated client _create_request can return encrypt offsets {ps.text(eo) if eo is not None else '?'} (path: {', '.join(sorted(ps.facts()))[:160]}): the request goes out unsealed and the reply is accepted without unwrap")
         req = v.elts[0] if ok else None
         kws = args_of(repo, f, req) if isinstance(req, ast.Call) else {}
@@ -258,7 +262,8 @@ def request_path(repo: Repo, chk: Check) -> None:
             chk.ob("O4", site, ok, "request returns what _send_pdu returns" if ok else "request() does not return the result of a single _send_pdu(...) call")
             if not ok:
                 continue
-            eo = sp[0].arg(3, "encrypt_offsets")
+            eo_p = sp[0].func.params[3] if sp[0].func is not None and len(sp[0].func.params) > 3 else "encrypt_offsets"
+            eo = sp[0].arg(3, eo_p)
             req = sp[0].arg(0)
             # (req, encrypt_offsets) = self._create_request(...)
             good = _tuple_elem(eo, cr[0], 1) and _tuple_elem(req, cr[0], 0)
